@@ -365,11 +365,22 @@ pub fn run_case_plan(run: &mut Run, rng: &mut Rng, cfg: &Cfg, iters: usize, faul
     // C01 ground truth of the round in progress: every send_probe call with its outcome, and the probes answered
     let mut round_log: Vec<(u16, u8, char)> = vec![];
     let mut round_answered: Vec<u16> = vec![];
+    // C10: no round can report a path length beyond the highest ttl ever probed
+    let mut max_ttl_ever_sent: u8 = 0;
     let unit = [cfg.max_round / 6 + 1, cfg.max_round / 2 + 1, 1, cfg.grace, cfg.grace + 1, cfg.min_round, cfg.min_round + 1, cfg.max_round, cfg.max_round + 1, 0, 10_000_000];
     for _it in 0..iters {
         if st.finished(real.max_rounds) { break; }
         // ---- choose the environment of this iteration from the *real* state
-        let forced = plan.pop_front();
+        let mut forced = plan.pop_front();
+        // pseudo outcomes in a forced plan: 'N' = no response in this iteration, 'S' = a never-sent sequence
+        // aimed at a slot that still holds an Awaited probe of an earlier round (junk kind 7)
+        let mut force_none = false;
+        let mut force_stale = false;
+        if let Some((fs, _)) = &mut forced {
+            if fs.contains(&'N') { force_none = true; }
+            if fs.contains(&'S') { force_stale = true; }
+            fs.retain(|c| *c != 'N' && *c != 'S');
+        }
         let sends: Vec<char> = if let Some((fs, _)) = &forced { fs.clone() } else if fault && rng.chance(1, 8) {
             match cfg.proto {
                 't' => { let n = rng.range(1, if wrap_soak { 40 } else { 4 }); let mut v = vec!['a'; n as usize]; v.push(*rng.pick(&['o', 'o', 'f', 'x'])); v }
@@ -379,9 +390,11 @@ pub fn run_case_plan(run: &mut Run, rng: &mut Rng, cfg: &Cfg, iters: usize, faul
         let dt = if let Some((_, fdt)) = &forced { *fdt } else if wrap_soak { cfg.max_round + 1 } else { *rng.pick(&unit) };
         let now_after = clock::now_ns() + dt;
         let aw = awaited(&st);
-        let choice = rng.below(100);
+        let choice = if force_stale { 99 } else { rng.below(100) };
         let mut genuine_for: Option<Probe> = None;
-        let recv = if fault && rng.chance(1, 60) {
+        let recv = if force_none {
+            Recv::None
+        } else if fault && rng.chance(1, 60) {
             Recv::Fatal
         } else if choice < 30 || (aw.is_empty() && choice < 70) {
             Recv::None
@@ -396,7 +409,7 @@ pub fn run_case_plan(run: &mut Run, rng: &mut Rng, cfg: &Cfg, iters: usize, faul
             // junk: duplicate / previous round / never sent in window / out of window / foreign id / wrong tuple
             let count_after = usize::from(st.sequence().0 - st.round_sequence().0) + 1 + sends.len();
             let stale_idx: Vec<usize> = (count_after..512).filter(|i| stale[*i]).collect();
-            let k = if !stale_idx.is_empty() && rng.chance(1, 2) { 7 } else { rng.below(7) };
+            let k = if !stale_idx.is_empty() && (force_stale || rng.chance(1, 2)) { 7 } else { rng.below(7) };
             run.count(&format!("junk:{k}"));
             let fake = |seq: u16, rng: &mut Rng| -> Probe {
                 let mut p = aw.first().cloned().or_else(|| prev_round_probes.first().cloned()).unwrap_or_else(|| Probe {
@@ -487,6 +500,7 @@ pub fn run_case_plan(run: &mut Run, rng: &mut Rng, cfg: &Cfg, iters: usize, faul
                 // C06 / C07: sends of this iteration
                 for (p, o) in &net.log {
                     round_log.push((p.sequence.0, p.ttl.0, *o));
+                    if *o != 'a' { max_ttl_ever_sent = max_ttl_ever_sent.max(p.ttl.0); }
                     let seq = p.sequence.0;
                     if let Some(&last) = mon.round_seqs.last() { if seq != last.wrapping_add(1) { run.fail("c07-not-consecutive", ctx()); } }
                     else if seq != before_seq_start { run.fail("c07-round-start", ctx()); }
@@ -556,6 +570,10 @@ pub fn run_case_plan(run: &mut Run, rng: &mut Rng, cfg: &Cfg, iters: usize, faul
                     }
                     round_log.clear();
                     round_answered.clear();
+                    // C10: the reported path length never exceeds the highest ttl probed so far (no never-probed trailing hop)
+                    if let Some(l) = pr.split('/').nth(1).and_then(|x| x.parse::<u16>().ok()) {
+                        if l > u16::from(max_ttl_ever_sent) { run.fail("c10-length-beyond-probed", format!("{} (published {}, highest ttl ever probed {max_ttl_ever_sent})", ctx(), &pr[..pr.find('[').unwrap_or(6)])); }
+                    }
                     // C10: the target at distance d answered the ttl = d probe in this round => the round reports path length d
                     if exact_answered_in_round {
                         let want = format!("/{}/[", path_len);
@@ -683,12 +701,22 @@ pub fn run(rng: &mut Rng, thorough: bool, corpus: &[String]) -> Run {
         else { cfg.initial = *rng.pick(&[64500u16, 64511, 64400]); }
         cfg.first = 1; cfg.max = 30; cfg.inflight = 24; cfg.max_rounds = None;
         cfg.min_round = 0; cfg.max_round = 1000; cfg.grace = 0;
+        // round 0: 13 probes, none answered; then rounds of 3 unanswered probes until the sequence wraps back
+        // to the initial sequence; in the first round after the wrap the slots 3..12 still hold the Awaited
+        // probes of round 0 under exactly the sequence numbers a forged response can name
         let mut plan = VecDeque::new();
-        for _ in 0..12 { plan.push_back((vec![], 0)); }
-        plan.push_back((vec![], 1001));
-        for _ in 0..190 { plan.push_back((vec![], 0)); plan.push_back((vec![], 0)); plan.push_back((vec![], 1001)); }
+        for _ in 0..12 { plan.push_back((vec!['N'], 0)); }
+        plan.push_back((vec!['N'], 1001));
+        let max_seq: u32 = if cfg.strat == 'd' && cfg.v6 { u32::from(cfg.initial) + 512 } else { 65023 };
+        let mut seq = u32::from(cfg.initial) + 13;
+        while seq < max_seq {
+            plan.push_back((vec!['N'], 0)); plan.push_back((vec!['N'], 0)); plan.push_back((vec!['N'], 1001));
+            seq += 3;
+        }
+        for _ in 0..10 { plan.push_back((vec!['S'], 0)); }
+        let n = plan.len() + 40;
         run.count("directed:wrap-stale");
-        run_case_plan(&mut run, rng, &cfg, 640, false, false, plan);
+        run_case_plan(&mut run, rng, &cfg, n, false, false, plan);
     }
     // sequence wrap-around soaks: many short rounds from boundary initial sequences
     let soaks = if thorough { 60 } else { 8 };
